@@ -456,7 +456,7 @@ func genDeepGrammar(r *rng) toolInput {
 func genLRRecovery(r *rng) toolInput { return genLRRecoveryN(r, -1) }
 
 // lrShapeCount is the number of shapes genLRRecoveryN knows.
-const lrShapeCount = 17
+const lrShapeCount = 22
 
 // genLRRecoveryN takes shape i (every shape once when i counts up), or a drawn one.
 func genLRRecoveryN(r *rng, i int) toolInput {
@@ -490,6 +490,18 @@ func genLRRecoveryN(r *rng, i int) toolInput {
 		// its joined names takes the two cycles for one
 		"Expr <- AB 'x' / A 'y' / 'e'\nAB <- C 'c'\nC <- Expr 'd'\nA <- BC 'a'\nBC <- Expr 'b'\n",
 		"S <- AB 'x' / A 'y' / 's'\nAB <- CD 'c'\nCD <- S 'd'\nA <- BCD 'a'\nBCD <- S 'b'\n",
+		// several left-recursive components that do not refer to each other: the
+		// order in which an analysis meets them is not fixed by the grammar, and
+		// whatever it carries over from one to the next shows
+		"Start <- P1 'x' / Q1 'y'\nP1 <- P2 'a' / 'b'\nP2 <- P1 'c' / 'd'\nQ1 <- Q2 'a' / 'b'\nQ2 <- Q1 'c' / 'd'\n",
+		"Start <- Mm / Aa / Zz\nMm <- Nn 'a' / 'm'\nNn <- Mm 'b' / 'n'\nAa <- Bb 'c' / Aa 'd' / 'a'\nBb <- Aa 'e' / 'b'\nZz <- Zz 'z' / Yy\nYy <- Zz 'y' / 'w'\n",
+		// one label bound twice in a scope that has other labels too (the emitted
+		// Go does not compile - the author's problem - but it is what it is, run
+		// after run)
+		"List <- a:Item sep:',' b:Item sep:';' c:Item { return nil, nil } / x:Item x:Item y:Item &{ return true, nil }\nItem <- [a-z]+\n",
+		// rules that are nothing but another name for a rule, in a circle
+		"Expr <- Term\nTerm <- Expr\n",
+		"S <- E 'x' / 'y'\nE <- T\nT <- F\nF <- E\nG <- F\n",
 	}
 	if len(shapes) != lrShapeCount {
 		panic("lrShapeCount is out of date")
@@ -515,6 +527,12 @@ func genLRRecoveryN(r *rng, i int) toolInput {
 	}
 	if strings.Contains(g, "A11") {
 		name, rules = "digitnames", []string{"A", "A1"}
+	}
+	if strings.Contains(g, "Term <- Expr") || strings.Contains(g, "F <- E\n") {
+		name, rules = "aliascycle", []string{"Expr", "S"}
+	}
+	if strings.HasPrefix(strings.TrimPrefix(g, "{\npackage gen\n}\n"), "List <- a:Item") {
+		name, rules = "twicebound", []string{"List", "Item"}
 	}
 	if strings.Contains(g, "BC <-") || strings.Contains(g, "BCD <-") {
 		name, rules = "joinednames", []string{"A", "AB"}
